@@ -85,6 +85,14 @@ func (e *Engine) runFunctionUnit(u *Unit) {
 		for _, g := range ct.GhostParam {
 			u.ghostVars[g.Name] = env.vars[g.Name]
 		}
+		st.gvars = map[string]Val{}
+		for _, g := range ct.GhostVars {
+			t := env.typeOf(g.Type)
+			if t == nil {
+				t = types.Typ[types.Bool]
+			}
+			st.gvars[g.Name] = Val{S: zeroTerm(t), T: t}
+		}
 		for _, rq := range env.expand(ct.Requires) {
 			st.assume(rq.term)
 		}
@@ -306,7 +314,7 @@ func (e *Engine) describeInputs(st *State, fn *ssa.Function) {
 				h := st.heap(hn, hs)
 				extra = append(extra, InputTerm{in.Name + ".len", slLen(in.Term)}, InputTerm{in.Name + ".cap", slCap(in.Term)}, InputTerm{in.Name + ".nil", eq(slRef(in.Term), "0")})
 				for i := 0; i < 48; i++ {
-					extra = append(extra, InputTerm{fmt.Sprintf("%s[%d]", in.Name, i), sel(sel(h, slRef(in.Term)), add(slOff(in.Term), itoa(int64(i))))})
+					extra = append(extra, InputTerm{fmt.Sprintf("%s[%d]", in.Name, i), sel(sel(h, slRef(in.Term)), ix(slOff(in.Term), itoa(int64(i))))})
 				}
 			}
 		case *types.Basic:
@@ -339,7 +347,7 @@ func (e *Engine) describeInputs(st *State, fn *ssa.Function) {
 							h := st.heap(en, es)
 							extra = append(extra, InputTerm{in.Name + "." + f.Name() + ".len", slLen(fv)}, InputTerm{in.Name + "." + f.Name() + ".cap", slCap(fv)}, InputTerm{in.Name + "." + f.Name() + ".nil", eq(slRef(fv), "0")})
 							for k := 0; k < 40; k++ {
-								extra = append(extra, InputTerm{fmt.Sprintf("%s.%s[%d]", in.Name, f.Name(), k), sel(sel(h, slRef(fv)), add(slOff(fv), itoa(int64(k))))})
+								extra = append(extra, InputTerm{fmt.Sprintf("%s.%s[%d]", in.Name, f.Name(), k), sel(sel(h, slRef(fv)), ix(slOff(fv), itoa(int64(k))))})
 							}
 						}
 					case *types.Pointer, *types.Map, *types.Signature, *types.Chan:
